@@ -13,6 +13,11 @@
 //   - when the executor sees ctx.Done() it reports that and waits; the harness
 //     lets it finish only once the goroutine running Run is parked in the
 //     channel receive of stopExecution (or has, wrongly, already returned).
+//
+// Shutdown (cancellation of the context passed to Run) begins either between
+// two Runs (op "shutdown") or in the middle of a Run, between Run's two
+// readings of ctx.Err() (run option "late"): inside CheckReadiness, or inside
+// clock.NewTimer, i.e. while Run sleeps in its select.
 package main
 
 import (
@@ -71,6 +76,11 @@ type op struct {
 	Sync     []xop    `json:"sync,omitempty"`
 	Reply    *replyOp `json:"reply,omitempty"`
 	OnCancel int      `json:"oncancel,omitempty"`
+	// Cancel Run's context in the middle of this Run (no effect if it is
+	// already cancelled): "ready" = while CheckReadiness is running, "select"
+	// = while Run sleeps in the select on timer/updates, "any" = at whichever
+	// of the two comes first.  Only has an effect if Run gets there.
+	Late string `json:"late,omitempty"`
 	// upd / fin
 	N   uint64 `json:"n,omitempty"`
 	Ok  bool   `json:"ok,omitempty"`
@@ -89,7 +99,7 @@ func (area) Requires() string {
 }
 func (area) Check() string { return "check_case" }
 func (area) Rule() string {
-	return "histories of 10-40 BuildClient.Run iterations (quick) interleaved with executor steps (progress update / finish) between Runs, during Run's select and during the Synchronize RPC; scheduler replies execute(digest 0..3)/idle/no-change/RPC error/invalid timestamp/invalid execute request/unknown desired state; readiness failures 12%; clock advancing 0-30 s per Run with jumps past the one-minute grace and backwards; bursts of 9-13 updates to fill the 10-slot channel; shutdown near the end in 70% of histories; 35% of histories end with an accepted idle reply, a delivered-but-locally-rejected reply (invalid timestamp / unknown desired state / invalid execute request), then shutdown (60%) and 1-3 further iterations; non-trivial = at least one executor started, one executor stopped or completed, one failing reply or readiness failure; distinct by hash of the case term"
+	return "histories of 10-40 BuildClient.Run iterations (quick) interleaved with executor steps (progress update / finish) between Runs, during Run's select and during the Synchronize RPC; shutdown begins between two Runs or in the middle of a Run (scripted for 55% of the shutdowns, effective for about 40%: context cancelled inside CheckReadiness / inside the select on timer and updates / whichever comes first, scripted on up to 3 consecutive Runs and followed by a between-Runs shutdown so that it always begins; the case term records whether the cancellation really happened before Synchronize was called); scheduler replies execute(digest 0..3)/idle/no-change/RPC error/invalid timestamp/invalid execute request/unknown desired state; readiness failures 12%; clock advancing 0-30 s per Run with jumps past the one-minute grace and backwards; bursts of 9-13 updates to fill the 10-slot channel; shutdown near the end in 70% of histories; 35% of histories end with an accepted idle reply, a delivered-but-locally-rejected reply (invalid timestamp / unknown desired state / invalid execute request), then shutdown (60%) and 1-3 further iterations; non-trivial = at least one executor started, one executor stopped or completed, one failing reply or readiness failure; distinct by hash of the case term"
 }
 
 // ---- generator ----------------------------------------------------------------
@@ -111,6 +121,16 @@ func (area) Generate(r *rng.R, thorough bool, index int) json.RawMessage {
 	shutdownAt := -1
 	if r.Chance(70) {
 		shutdownAt = runs - 1 - r.Intn(8)
+	}
+	// About 40% of the shutdowns begin in the middle of a Run (the option is
+	// scripted for 55% of them and takes effect in about 7 of 10): it is put on
+	// up to three consecutive Runs (the first one that reaches the scripted
+	// point cancels), and a between-Runs shutdown follows in any case.
+	lateFrom, lateTo, lateKind := -1, -1, ""
+	if shutdownAt >= 0 && r.Chance(55) {
+		lateFrom, lateTo = shutdownAt, shutdownAt+r.Intn(3)
+		lateKind = []string{"ready", "select", "any"}[r.Intn(3)]
+		shutdownAt = lateTo + 1
 	}
 	for i := 0; i < runs; i++ {
 		if i == shutdownAt {
@@ -139,6 +159,9 @@ func (area) Generate(r *rng.R, thorough bool, index int) json.RawMessage {
 			now += int64(r.Intn(30000))
 		}
 		o := op{K: "run", Now: now, Ready: !r.Chance(12), OnCancel: r.Intn(4)}
+		if i >= lateFrom && i <= lateTo {
+			o.Late = lateKind
+		}
 		if r.Chance(40) {
 			for j, n := 0, 1+r.Intn(3); j < n; j++ {
 				o.Sel = append(o.Sel, genX(r))
@@ -180,6 +203,9 @@ func (area) Generate(r *rng.R, thorough bool, index int) json.RawMessage {
 		o.Reply = rp
 		h.Ops = append(h.Ops, o)
 	}
+	if shutdownAt >= runs {
+		h.Ops = append(h.Ops, op{K: "shutdown"})
+	}
 	if r.Chance(35) {
 		// A reply that is delivered but rejected locally (invalid timestamp,
 		// unknown desired state, invalid execute request), preceded by an
@@ -199,8 +225,16 @@ func (area) Generate(r *rng.R, thorough bool, index int) json.RawMessage {
 		default:
 			rp.K, rp.BadTs = "none", 1+r.Intn(2)
 		}
-		h.Ops = append(h.Ops, op{K: "run", Now: now, Ready: true, Reply: rp})
-		if r.Chance(60) {
+		// The bound is gone, so this Run checks readiness: in 40% of the
+		// histories that shut down here, the context is cancelled inside
+		// that check (an idle worker that has just been found healthy).
+		sd := r.Chance(60)
+		late := ""
+		if sd && r.Chance(40) {
+			late = "ready"
+		}
+		h.Ops = append(h.Ops, op{K: "run", Now: now, Ready: true, Reply: rp, Late: late})
+		if sd {
 			h.Ops = append(h.Ops, op{K: "shutdown"})
 		}
 		for j, n := 0, 1+r.Intn(3); j < n; j++ {
@@ -217,8 +251,10 @@ func (area) Generate(r *rng.R, thorough bool, index int) json.RawMessage {
 
 const baseSeconds = 1_700_000_000
 
-func msToTime(ms int64) time.Time { return time.Unix(baseSeconds, 0).Add(time.Duration(ms) * time.Millisecond) }
-func timeToMs(t time.Time) int64  { return int64(t.Sub(time.Unix(baseSeconds, 0)) / time.Millisecond) }
+func msToTime(ms int64) time.Time {
+	return time.Unix(baseSeconds, 0).Add(time.Duration(ms) * time.Millisecond)
+}
+func timeToMs(t time.Time) int64 { return int64(t.Sub(time.Unix(baseSeconds, 0)) / time.Millisecond) }
 
 // Time the harness is prepared to wait for something that happens within
 // microseconds on an intact implementation.  The machine may be heavily
@@ -297,10 +333,14 @@ type world struct {
 	execs          []*exec
 	capRT          int
 	cur            *exec
-	run            *op      // the Run op in flight
+	run            *op // the Run op in flight
 	synced         bool
+	ctx            context.Context // the context handed to Run
+	cancelCtx      context.CancelFunc
+	lateDone       bool        // the context was cancelled during this Run, before Synchronize was called
+	latePos        string      // where
 	anomaly        atomic.Bool // something timed out or overlapped: stop after this item
-	selDone        []string // executor steps performed during select (Gallina terms)
+	selDone        []string    // executor steps performed during select (Gallina terms)
 	syncDone       []string
 	started        chan *exec
 	cancelObserved chan *exec
@@ -430,6 +470,28 @@ func (w *world) setRun(o *op) {
 	w.mu.Unlock()
 }
 
+// lateCancel cancels Run's context from inside one of Run's blocking points
+// if the Run in flight asks for it there and the context is still live.  What
+// goes into the case term is what happened: the cancellation counts as "before
+// the request was built" only if Synchronize has not been called yet.
+func (w *world) lateCancel(pos string) {
+	run := w.curRun()
+	if run == nil || (run.Late != pos && run.Late != "any") {
+		return
+	}
+	if w.ctx.Err() != nil {
+		w.info.Outs["late-cancel-context-already-cancelled"]++
+		return
+	}
+	w.cancelCtx()
+	if w.synced {
+		w.info.Outs["late-cancel-after-synchronize"]++
+		return
+	}
+	w.lateDone, w.latePos = true, pos
+	w.info.Outs["late-cancel-during-"+pos]++
+}
+
 // -- clock
 
 type fakeTimer struct{}
@@ -471,6 +533,8 @@ func (w *world) NewTimer(d time.Duration) (clock.Timer, <-chan time.Time) {
 	if run := w.curRun(); !avail() && run != nil {
 		w.selDone = append(w.selDone, w.doExecInRun(run.Sel)...)
 	}
+	// Run is (about to be) asleep in the select: shutdown may begin now.
+	w.lateCancel("select")
 	if avail() {
 		setOut(false)
 		return fakeTimer{}, make(chan time.Time)
@@ -486,6 +550,9 @@ func (w *world) NewTimer(d time.Duration) (clock.Timer, <-chan time.Time) {
 
 func (w *world) CheckReadiness(ctx context.Context) error {
 	w.log("OReady")
+	// Shutdown may begin while the readiness check is running; its result is
+	// the scripted one all the same.
+	w.lateCancel("ready")
 	if run := w.curRun(); run != nil && !run.Ready {
 		w.info.Outs["readiness-failed"]++
 		return status.Error(codes.ResourceExhausted, "scripted readiness failure")
@@ -631,6 +698,15 @@ func (w *world) Synchronize(ctx context.Context, in *remoteworker.SynchronizeReq
 	}
 	w.log(g.App("OSync", st, g.Bool(in.PreferBeingIdle), g.Bool(ctx.Err() == nil)))
 	w.synced = true
+	if w.lateDone {
+		w.info.Outs["late-cancel-then-sync-"+kind]++
+		if !in.PreferBeingIdle {
+			w.info.Outs["late-cancel-then-sync-without-prefer-idle"]++
+		}
+		if ctx.Err() != nil {
+			w.info.Outs["late-cancel-then-sync-on-cancelled-context"]++
+		}
+	}
 	run := w.curRun()
 	rp := run.Reply
 	w.syncDone = append(w.syncDone, w.doExecInRun(run.Sync)...)
@@ -731,6 +807,7 @@ func (area) Execute(raw json.RawMessage) (string, *hcommon.Info, error) {
 	bc := builder.NewBuildClient(w, w, nil, w, map[string]string{"host": "h"}, mustInstanceName("pfx"), &remoteexecution.Platform{}, 0)
 	ctx, cancelCtx := context.WithCancel(context.Background())
 	defer cancelCtx()
+	w.ctx, w.cancelCtx = ctx, cancelCtx
 
 	var items []string
 	hung := false
@@ -767,6 +844,9 @@ func (area) Execute(raw json.RawMessage) (string, *hcommon.Info, error) {
 		info.Ops[o.K]++
 		switch o.K {
 		case "shutdown":
+			if ctx.Err() == nil {
+				info.Outs["shutdown-between-runs"]++
+			}
 			cancelCtx()
 		case "upd", "fin":
 			for _, p := range w.doExec(xop{K: o.K, N: o.N, Ok: o.Ok, Tag: o.Tag}) {
@@ -784,6 +864,10 @@ func (area) Execute(raw json.RawMessage) (string, *hcommon.Info, error) {
 			w.now = msToTime(o.Now)
 			w.setRun(o)
 			w.selDone, w.syncDone, w.synced = nil, nil, false
+			w.lateDone, w.latePos = false, ""
+			if o.Late != "" {
+				info.Outs["late-scripted-"+o.Late]++
+			}
 			shutdown := ctx.Err() != nil
 			gidCh := make(chan uint64, 1)
 			done := make(chan runResult, 1)
@@ -865,7 +949,10 @@ func (area) Execute(raw json.RawMessage) (string, *hcommon.Info, error) {
 			}
 			w.log(ret)
 			w.setRun(nil)
-			ev := g.App("ERun", g.App("mkRin", g.Bool(shutdown), g.Z(o.Now), g.Bool(o.Ready), g.List(w.selDone), g.List(w.syncDone), replyTerm(o.Reply)))
+			if w.lateDone && !w.synced {
+				info.Outs["late-cancel-run-returned-without-sync"]++
+			}
+			ev := g.App("ERun", g.App("mkRin", g.Bool(shutdown), g.Bool(w.lateDone), g.Z(o.Now), g.Bool(o.Ready), g.List(w.selDone), g.List(w.syncDone), replyTerm(o.Reply)))
 			finish(ev)
 		default:
 			return "", nil, fmt.Errorf("unknown op %q", o.K)
